@@ -1,6 +1,631 @@
+/-
+Model of the RISC-V assembler: `isa/parser.py` and `isa/riscv/riscv_parser.py`, and of
+`RiscvSimulation.load_program`.
+The pyparsing grammar is transcribed alternative by alternative with the scanners of `Model.PP`; the
+passes (`_segment`, `_list_access_at_zero_and_remove_inline_labels`, `_write_data`,
+`_process_pseudo_instructions`, `_process_labels`, `_write_instructions`) follow the Python.
+Pseudo-instructions are expanded on the syntax tree (the Python re-parses generated text such as
+`"lui x5, 17"`, which yields exactly these trees).
+Import-free: compiled into the driver.
+-/
 import ArchSim.Model.Rv
+import ArchSim.Model.PP
+
 namespace ArchSim.Asm
-open ArchSim
-def assembleStr (_text : String) : String := "unimplemented"
-def loadProgram (s : Rv.St) (_text : String) : Rv.St × String := (s, "unimplemented")
+open ArchSim ArchSim.PP ArchSim.Rv
+
+/-! ### grammar -/
+
+def abiNames : List (String × Nat) :=
+  [("zero", 0), ("ra", 1), ("sp", 2), ("gp", 3), ("tp", 4), ("t0", 5), ("t1", 6), ("t2", 7), ("s0", 8), ("fp", 8),
+   ("s1", 9), ("a0", 10), ("a1", 11), ("a2", 12), ("a3", 13), ("a4", 14), ("a5", 15), ("a6", 16), ("a7", 17),
+   ("s2", 18), ("s3", 19), ("s4", 20), ("s5", 21), ("s6", 22), ("s7", 23), ("s8", 24), ("s9", 25), ("s10", 26),
+   ("s11", 27), ("t3", 28), ("t4", 29), ("t5", 30), ("t6", 31)]
+
+def regNumbers : List String := (List.range 32).map toString
+
+/-- `_pattern_register = one_of(abi names) | Group("x" + one_of(0..31))`, converted by
+    `_convert_register_name`. -/
+def pReg (i : Inp) : R Nat :=
+  match oneOf (abiNames.map (·.1)) i with
+  | .ok n rest => .ok ((abiNames.find? (fun p => p.1 == n)).map (·.2) |>.getD 0) rest
+  | .abort => .abort
+  | .fail =>
+    (lit "x" i).bind fun _ r => (oneOf regNumbers r).map fun n => n.toNat!
+
+def isLabelInit (c : Char) : Bool := isAlpha c || c = '_'
+def isLabelBody (c : Char) : Bool := isAlnum c || c = '_'
+def pLabel : Inp → R String := word isLabelInit isLabelBody
+def pLabelAdj : Inp → R String := wordAdj isLabelInit isLabelBody
+
+def isBin (c : Char) : Bool := c = '0' || c = '1'
+
+/-- the numeral text of `_pattern_imm` (a `Combine`: sign and digits adjacent), before validation -/
+def pImmText (i : Inp) : R String :=
+  let i := skipWs i
+  let (sign, j) : String × Inp := match i with
+    | '-' :: r => ("-", r)
+    | r => ("", r)
+  match (litAdj "0x" j).bind (fun _ r => wordAdj isHexNum isHexNum r) with
+  | .ok h rest => .ok (sign ++ "0x" ++ h) rest
+  | .abort => .abort
+  | .fail =>
+    match (litAdj "0b" j).bind (fun _ r => wordAdj isBin isBin r) with
+    | .ok b rest => .ok (sign ++ "0b" ++ b) rest
+    | .abort => .abort
+    | .fail =>
+      match wordAdj isNum isNum j with
+      | .ok d rest => .ok (sign ++ d) rest
+      | r => r
+
+/-- `_pattern_imm` with its validating parse action: the value of `int(text, base=0)`. -/
+def pImm (i : Inp) : R Int :=
+  (pImmText i).bind fun t rest =>
+    match pyIntBase0 t with
+    | some v => .ok v rest
+    | none => .fail
+
+def pComma : Inp → R Unit := lit ","
+def pColon : Inp → R Unit := lit ":"
+
+/-- `Optional(PLUS + Combine("0x" + Word(hexnums))("offset"))`: value of the offset or 0 -/
+def pOffset (i : Inp) : R Int :=
+  match (lit "+" i).bind (fun _ r =>
+      let r := skipWs r
+      (litAdj "0x" r).bind fun _ r2 => wordAdj isHexNum isHexNum r2) with
+  | .ok h rest => .ok ((natOfDigits 16 h.toList).getD 0 : Nat) rest
+  | .abort => .abort
+  | .fail => .ok 0 i
+
+/-- `_pattern_variable = Combine(label + Optional(Combine("[" + Word(nums) + "]")))`:
+    (name, index text) -/
+def pVariable (i : Inp) : R (String × Option Int) :=
+  (pLabel i).bind fun name r =>
+    match (litAdj "[" r).bind (fun _ r1 => (wordAdj isNum isNum r1).bind fun d r2 =>
+        match pyIntDec d with
+        | some v => (litAdj "]" r2).map fun _ => v
+        | none => .fail) with
+    | .ok v rest => .ok (name, some v) rest
+    | .abort => .abort
+    | .fail => .ok (name, none) r
+
+/-- Parsed instruction forms (one constructor per grammar alternative). -/
+inductive PInstr where
+  | rtype (mn : String) (rd rs1 rs2 : Nat)
+  | utype (mn : String) (rd : Nat) (imm : Int)
+  | btypeLabel (mn : String) (r1 r2 : Nat) (label : String) (offset : Int)
+  | mem (mn : String) (r1 : Nat) (imm : Int) (r2 : Nat)
+  | memPseudo (mn : String) (r1 : Nat) (var : String) (idx : Option Int)
+  | sPseudo (mn : String) (r1 : Nat) (var : String) (idx : Option Int) (r2 : Nat)
+  | csr (mn : String) (rd : Nat) (csr : Int) (rs1 : Nat)
+  | csri (mn : String) (rd : Nat) (csr : Int) (uimm : Int)
+  | rri (mn : String) (r1 r2 : Nat) (imm : Int)
+  | fence (rd rs1 : Nat)
+  | jalImm (rd : Nat) (imm : Int)
+  | jalLabel (rd : Nat) (label : String) (offset : Int)
+  | li (rd : Nat) (imm : Int)
+  | mv (rd rs : Nat)
+deriving Repr, DecidableEq, Inhabited
+
+def rrrMn : List String := ["add", "sub", "sll", "slt", "sltu", "xor", "srl", "sra", "or", "and",
+  "mul", "mulh", "mulhu", "mulhsu", "div", "divu", "rem", "remu"]
+def normalIMn : List String := ["addi", "slti", "sltiu", "xori", "ori", "andi", "slli", "srli", "srai"]
+def memIMn : List String := ["lb", "lh", "lw", "lbu", "lhu", "jalr"]
+def bMn : List String := ["beq", "bne", "blt", "bge", "bltu", "bgeu"]
+def sMn : List String := ["sb", "sh", "sw"]
+def uMn : List String := ["lui", "auipc"]
+def csrMn : List String := ["csrrw", "csrrs", "csrrc"]
+def csriMn : List String := ["csrrwi", "csrrsi", "csrrci"]
+
+def pRType (i : Inp) : R PInstr :=
+  (oneOfCaseless rrrMn i).bind fun mn r0 =>
+  (pReg r0).bind fun rd r1 => (pComma r1).bind fun _ r2 =>
+  (pReg r2).bind fun rs1 r3 => (pComma r3).bind fun _ r4 =>
+  (pReg r4).map fun rs2 => .rtype mn rd rs1 rs2
+
+def pRegRegImm (i : Inp) : R PInstr :=
+  (oneOfCaseless (normalIMn ++ memIMn ++ bMn ++ sMn) i).bind fun mn r0 =>
+  (pReg r0).bind fun a r1 => (pComma r1).bind fun _ r2 =>
+  (pReg r2).bind fun b r3 => (pComma r3).bind fun _ r4 =>
+  (pImm r4).map fun imm => .rri mn a b imm
+
+def pBType (i : Inp) : R PInstr :=
+  (oneOfCaseless bMn i).bind fun mn r0 =>
+  (pReg r0).bind fun a r1 => (pComma r1).bind fun _ r2 =>
+  (pReg r2).bind fun b r3 => (pComma r3).bind fun _ r4 =>
+  (pLabel r4).bind fun l r5 => (pOffset r5).map fun off => .btypeLabel mn a b l off
+
+def pMemory (i : Inp) : R PInstr :=
+  (oneOfCaseless (memIMn ++ sMn) i).bind fun mn r0 =>
+  (pReg r0).bind fun a r1 => (pComma r1).bind fun _ r2 =>
+  (pImm r2).bind fun imm r3 => (lit "(" r3).bind fun _ r4 =>
+  (pReg r4).bind fun b r5 => (lit ")" r5).map fun _ => .mem mn a imm b
+
+def pMemPseudo (i : Inp) : R PInstr :=
+  (oneOfCaseless (memIMn ++ ["la"]) i).bind fun mn r0 =>
+  (pReg r0).bind fun a r1 => (pComma r1).bind fun _ r2 =>
+  (pVariable r2).map fun (v, idx) => .memPseudo mn a v idx
+
+def pSPseudo (i : Inp) : R PInstr :=
+  (oneOfCaseless sMn i).bind fun mn r0 =>
+  (pReg r0).bind fun a r1 => (pComma r1).bind fun _ r2 =>
+  (pVariable r2).bind fun (v, idx) r3 => (pComma r3).bind fun _ r4 =>
+  (pReg r4).map fun b => .sPseudo mn a v idx b
+
+def pJal (i : Inp) : R PInstr :=
+  (caselessLit "jal" i).bind fun _ r0 =>
+  (pReg r0).bind fun rd r1 => (pComma r1).bind fun _ r2 =>
+    orLongest [fun j => (pImm j).map (fun imm => PInstr.jalImm rd imm),
+               fun j => (pLabel j).bind fun l r3 => (pOffset r3).map fun off => PInstr.jalLabel rd l off] r2
+
+def pUType (i : Inp) : R PInstr :=
+  (oneOfCaseless uMn i).bind fun mn r0 =>
+  (pReg r0).bind fun rd r1 => (pComma r1).bind fun _ r2 => (pImm r2).map fun imm => .utype mn rd imm
+
+def pFence (i : Inp) : R PInstr :=
+  (caselessLit "fence" i).bind fun _ r0 =>
+  (pReg r0).bind fun rd r1 => (pComma r1).bind fun _ r2 => (pReg r2).map fun rs1 => .fence rd rs1
+
+def pCsr (i : Inp) : R PInstr :=
+  (oneOfCaseless csrMn i).bind fun mn r0 =>
+  (pReg r0).bind fun rd r1 => (pComma r1).bind fun _ r2 =>
+  (pImm r2).bind fun c r3 => (pComma r3).bind fun _ r4 => (pReg r4).map fun rs1 => .csr mn rd c rs1
+
+def pCsri (i : Inp) : R PInstr :=
+  (oneOfCaseless csriMn i).bind fun mn r0 =>
+  (pReg r0).bind fun rd r1 => (pComma r1).bind fun _ r2 =>
+  (pImm r2).bind fun c r3 => (pComma r3).bind fun _ r4 => (pImm r4).map fun u => .csri mn rd c u
+
+def pLi (i : Inp) : R PInstr :=
+  (caselessLit "li" i).bind fun _ r0 =>
+  (pReg r0).bind fun rd r1 => (pComma r1).bind fun _ r2 => (pImm r2).map fun imm => .li rd imm
+
+def pMv (i : Inp) : R PInstr :=
+  (oneOfCaseless ["mv"] i).bind fun _ r0 =>
+  (pReg r0).bind fun rd r1 => (pComma r1).bind fun _ r2 => (pReg r2).map fun rs => .mv rd rs
+
+/-- What an entry of `self.text` / `self.data` is after
+    `_list_access_at_zero_and_remove_inline_labels`: a plain string (a stand-alone label, or the bare
+    words `ecall`, `ebreak`, `nop`), a grouped instruction, a declaration or a directive. -/
+inductive Item where
+  | str (s : String)
+  | grp (pi : PInstr)
+  | varDecl (name : String) (ty : String) (vals : List Int)
+  | strDecl (name : String) (body : List Char)
+  | zeroDecl (name : String) (n : Int)
+  | directive (d : String)
+deriving Repr, DecidableEq, Inhabited
+
+/-- a tokenized line: optional in-line label and the item -/
+structure Tok where
+  lbl  : Option String
+  item : Item
+deriving Repr, DecidableEq, Inhabited
+
+def pInstrBody (i : Inp) : R Item :=
+  orLongest
+    [ fun j => (pRType j).map Item.grp, fun j => (pUType j).map Item.grp, fun j => (pBType j).map Item.grp,
+      fun j => (pMemory j).map Item.grp, fun j => (pMemPseudo j).map Item.grp, fun j => (pSPseudo j).map Item.grp,
+      fun j => (pCsr j).map Item.grp, fun j => (pCsri j).map Item.grp, fun j => (pRegRegImm j).map Item.grp,
+      fun j => (pFence j).map Item.grp, fun j => (pJal j).map Item.grp,
+      fun j => (first [fun k => (caselessLit "ecall" k).map (fun _ => Item.str "ecall"),
+                        fun k => (caselessLit "ebreak" k).map (fun _ => Item.str "ebreak")] j),
+      fun j => (caselessLit "nop" j).map (fun _ => Item.str "nop"),
+      fun j => (pLi j).map Item.grp, fun j => (pMv j).map Item.grp ] i
+
+def pLabelDecl (i : Inp) : R String := (pLabel i).bind fun l r => (pColon r).map fun _ => l
+
+def pInstruction (i : Inp) : R Tok :=
+  (opt pLabelDecl i).bind fun lbl r => (pInstrBody r).map fun it => { lbl := lbl, item := it }
+
+def pDirective (i : Inp) : R Tok :=
+  (lit "." i).bind fun _ r => (oneOf ["text", "data"] r).map fun d => { lbl := none, item := .directive d }
+
+def pMoreImms : Nat → Inp → List Int → List Int × Inp
+  | 0, i, acc => (acc.reverse, i)
+  | fuel + 1, i, acc =>
+    match (pComma i).bind (fun _ r => pImm r) with
+    | .ok v rest => pMoreImms fuel rest (v :: acc)
+    | _ => (acc.reverse, i)
+
+def pVarDecl (i : Inp) : R Tok :=
+  (pLabel i).bind fun name r1 => (pColon r1).bind fun _ r2 =>
+  (lit "." r2).bind fun _ r3 => (oneOf ["byte", "half", "word"] r3).bind fun ty r4 =>
+  (pImm r4).bind fun v r5 =>
+    let (vs, rest) := pMoreImms r5.length r5 [v]
+    .ok { lbl := none, item := .varDecl name ty vs } rest
+
+/-- body of the `quoted_string` regex after the opening quote `q`: ordinary characters, a doubled
+    quote, or a backslash escape (`\x` needs hex digits). Returns the raw body and the rest, which
+    starts at the first character the regex cannot consume. -/
+def quotedBody (q : Char) : Nat → Inp → List Char → List Char × Inp
+  | 0, i, acc => (acc.reverse, i)
+  | fuel + 1, i, acc =>
+    match i with
+    | [] => (acc.reverse, [])
+    | c :: cs =>
+      if c = q then
+        match cs with
+        | c2 :: cs2 => if c2 = q then quotedBody q fuel cs2 (q :: q :: acc) else (acc.reverse, i)
+        | [] => (acc.reverse, i)
+      else if c = '\\' then
+        match cs with
+        | [] => (acc.reverse, i)
+        | 'x' :: cs2 =>
+          let hs := cs2.takeWhile isHexNum
+          if hs.isEmpty then (acc.reverse, i)
+          else quotedBody q fuel (cs2.dropWhile isHexNum) (hs.reverse ++ ('x' :: '\\' :: acc))
+        | c2 :: cs2 => quotedBody q fuel cs2 (c2 :: '\\' :: acc)
+      else if c = '\n' || c = '\r' then (acc.reverse, i)
+      else quotedBody q fuel cs (c :: acc)
+
+def pQuoted (i : Inp) : R (List Char) :=
+  let i := skipWs i
+  let tryQ (q : Char) : R (List Char) :=
+    match i with
+    | c :: cs =>
+      if c = q then
+        let (body, rest) := quotedBody q (cs.length + 1) cs []
+        match rest with
+        | c2 :: rest2 => if c2 = q then .ok body rest2 else .fail
+        | [] => .fail
+      else .fail
+    | [] => .fail
+  match tryQ '"' with
+  | .ok b r => .ok b r
+  | _ => tryQ '\''
+
+def pStrDecl (i : Inp) : R Tok :=
+  (pLabel i).bind fun name r1 => (pColon r1).bind fun _ r2 =>
+  (lit "." r2).bind fun _ r3 => (lit "string" r3).bind fun _ r4 =>
+  (pQuoted r4).map fun body => { lbl := none, item := .strDecl name body }
+
+def pZeroDecl (i : Inp) : R Tok :=
+  (pLabel i).bind fun name r1 => (pColon r1).bind fun _ r2 =>
+  (lit "." r2).bind fun _ r3 => (lit "zero" r3).bind fun _ r4 =>
+  (word isNum isNum r4).bind fun d r5 =>
+    match pyIntDec d with
+    | some v => .ok { lbl := none, item := .zeroDecl name v } r5
+    | none => .fail
+
+/-- `_pattern_line.parseString(line)`; `none` = the line cannot be tokenized. -/
+def parseLine (line : List Char) : Option Tok :=
+  match orLongest [pDirective, pVarDecl, pStrDecl, pZeroDecl, pInstruction,
+                   fun i => (pLabelDecl i).map fun l => { lbl := none, item := Item.str l }] line with
+  | .ok t rest => if atEnd rest then some t else none
+  | _ => none
+
+/-! ### passes -/
+
+inductive AsmErr where
+  | parser (kind : String) (lineNo : Nat) (line : String)
+  | memAddr (a : Int)
+deriving Repr, DecidableEq
+
+abbrev Entry := Nat × String × Tok
+
+def sanitize (text : String) : List (Nat × List Char) :=
+  let ls := splitLines text.toList
+  let numbered := (List.range ls.length).zip ls |>.map fun (k, l) => (k + 1, l)
+  let kept := numbered.filter fun (_, l) =>
+    let s := pyStrip l
+    !s.isEmpty && s.head? != some '#'
+  kept.map fun (k, l) => (k, pyStrip (l.takeWhile (· != '#')))
+
+def tokenize : List (Nat × List Char) → Except AsmErr (List Entry)
+  | [] => .ok []
+  | (k, l) :: rest =>
+    match parseLine l with
+    | none => .error (.parser "ParserSyntaxException" k (String.ofList l))
+    | some t =>
+      match tokenize rest with
+      | .error e => .error e
+      | .ok es => .ok ((k, String.ofList l, t) :: es)
+
+def isDir (d : String) (e : Entry) : Bool := e.2.2.item == Item.directive d && e.2.2.lbl.isNone
+def idxOfLine (k : Nat) (l : List Entry) : Nat := l.findIdx (fun e => e.1 == k)
+
+structure Seg where
+  data : List Entry
+  text : List Entry
+  dataExists : Bool
+  textExists : Bool
+
+/-- `_segment` -/
+def segment (toks : List Entry) : Except AsmErr (List Entry × List Entry) :=
+  match toks with
+  | [] => .ok ([], [])
+  | first :: rest =>
+    let s0 : Seg :=
+      if isDir "data" first then { data := rest, text := [], dataExists := true, textExists := false }
+      else if isDir "text" first then { data := [], text := rest, dataExists := false, textExists := true }
+      else { data := [], text := toks, dataExists := false, textExists := true }
+    let step (acc : Except AsmErr Seg) (e : Entry) : Except AsmErr Seg :=
+      match acc with
+      | .error x => .error x
+      | .ok s =>
+        if isDir "data" e then
+          if !s.dataExists then
+            let idx := idxOfLine e.1 s.text
+            .ok { s with dataExists := true, data := s.text.drop (idx + 1), text := s.text.take idx }
+          else .error (.parser "ParserDirectiveException" e.1 e.2.1)
+        else if isDir "text" e then
+          if !s.textExists then
+            let idx := idxOfLine e.1 s.data
+            .ok { s with textExists := true, text := s.data.drop (idx + 1), data := s.data.take idx }
+          else .error (.parser "ParserDirectiveException" e.1 e.2.1)
+        else .ok s
+    match rest.foldl step (.ok s0) with
+    | .error x => .error x
+    | .ok s => .ok (s.data, s.text)
+
+/-- variables: name ↦ (address, element size) -/
+abbrev Vars := List (String × Int × Int)
+def lookupVar (vs : Vars) (n : String) : Option (Int × Int) := (vs.find? (fun p => p.1 == n)).map (·.2)
+
+structure DataOut where
+  mem  : MemSys
+  vars : Vars
+  ctr  : Int                 -- `address_counter`
+  err  : Option AsmErr
+
+def align4 (a : Int) : Int := if a % 4 ≠ 0 then a + (4 - a % 4) else a
+
+/-- a sequence of direct writes of `bits`-bit values at stride `bits/8`; stops at the first error -/
+def writeSeq (bits : Nat) : List Int → MemSys → Int → MemSys × Int × Option AsmErr
+  | [], m, a => (m, a, none)
+  | v :: vs, m, a =>
+    let o := m.write bits a ((v % (2 : Int) ^ bits).toNat) true
+    match o.res with
+    | .error (.addr x) => (o.mem, a, some (.memAddr x))
+    | .error _ => (o.mem, a, some (.memAddr a))
+    | .ok _ => writeSeq bits vs o.mem (a + (bits / 8 : Nat))
+
+/-- `_write_data`. In the data segment an entry is what `p[0]` is: for a line with an in-line label
+    that is the label string, so any such line — like any line that is not a declaration — is a
+    data-syntax error. -/
+def writeData : List Entry → DataOut → DataOut
+  | [], o => o
+  | (k, line, t) :: rest, o =>
+    let bad : DataOut := { o with err := some (.parser "ParserDataSyntaxException" k line) }
+    if t.lbl.isSome then bad else
+    let declare (name : String) (f : Int → MemSys × Int × Option AsmErr) (size : Int) : DataOut :=
+      if (lookupVar o.vars name).isSome then { o with err := some (.parser "ParserDataDuplicateException" k line) }
+      else
+        let a := align4 o.ctr
+        match f a with
+        | (m, a', some e) => { o with mem := m, ctr := a', vars := o.vars ++ [(name, a, size)], err := some e }
+        | (m, a', none) => writeData rest { o with mem := m, ctr := a', vars := o.vars ++ [(name, a, size)] }
+    match t.item with
+    | .varDecl name ty vals =>
+      let bits := if ty = "byte" then 8 else if ty = "half" then 16 else 32
+      declare name (fun a => writeSeq bits vals o.mem a) (bits / 8 : Nat)
+    | .strDecl name body =>
+      declare name (fun a => writeSeq 8 (body.map (fun c => (c.toNat : Int)) ++ [0]) o.mem a) 1
+    | .zeroDecl name n => declare name (fun a => (o.mem, a + 4 * n, none)) 4
+    | _ => bad
+
+/-- the lui/addi split of a 32-bit constant: `(lui_imm, addi_imm)` -/
+def hiLo (v : Int) : Int × Int :=
+  let u : Int := v % 4294967296
+  let lo := u % 4096
+  let hi := u / 4096
+  (if lo > 2047 then hi + 1 else hi, lo)
+
+/-- text entries after `_list_access_at_zero_and_remove_inline_labels`: (line no, line, item) -/
+abbrev TEntry := Nat × String × Item
+
+/-- `_process_pseudo_instructions`: expansion of one entry (or the error). -/
+def expandOne (vars : Vars) (e : TEntry) : Except AsmErr (List TEntry) :=
+  let (k, line, it) := e
+  let mk (pi : PInstr) : TEntry := (k, line, .grp pi)
+  let varAddr (v : String) (idx : Option Int) : Except AsmErr Int :=
+    match lookupVar vars v with
+    | none => .error (.parser "ParserVariableException" k line)
+    | some (a, sz) => .ok (a + sz * idx.getD 0)
+  match it with
+  | .str "nop" => .ok [mk (.rri "addi" 0 0 0)]
+  | .grp (.li rd imm) =>
+    let (hi, lo) := hiLo imm
+    if imm > 2047 ∨ imm < -2048 then .ok [mk (.utype "lui" rd hi), mk (.rri "addi" rd rd lo)]
+    else .ok [mk (.rri "addi" rd 0 imm)]
+  | .grp (.memPseudo mn r1 v idx) =>
+    match varAddr v idx with
+    | .error x => .error x
+    | .ok a =>
+      let (hi, lo) := hiLo a
+      let base := [mk (.utype "lui" r1 hi), mk (.rri "addi" r1 r1 lo)]
+      if mn = "la" then .ok base else .ok (base ++ [mk (.mem mn r1 0 r1)])
+  | .grp (.sPseudo mn r1 v idx r2) =>
+    match varAddr v idx with
+    | .error x => .error x
+    | .ok a =>
+      let (hi, lo) := hiLo a
+      .ok [mk (.utype "lui" r2 hi), mk (.rri "addi" r2 r2 lo), mk (.mem mn r1 0 r2)]
+  | .grp (.mv rd rs) => .ok [mk (.rri "addi" rd rs 0)]
+  | _ => .ok [e]
+
+def expandAll (vars : Vars) : List TEntry → Except AsmErr (List TEntry)
+  | [] => .ok []
+  | e :: rest =>
+    match expandOne vars e with
+    | .error x => .error x
+    | .ok es =>
+      match expandAll vars rest with
+      | .error x => .error x
+      | .ok more => .ok (es ++ more)
+
+def itemMnemonic : Item → Option String
+  | .str s => some s
+  | .grp pi => some (match pi with
+    | .rtype mn .. => mn | .utype mn .. => mn | .btypeLabel mn .. => mn | .mem mn .. => mn
+    | .memPseudo mn .. => mn | .sPseudo mn .. => mn | .csr mn .. => mn | .csri mn .. => mn
+    | .rri mn .. => mn | .fence .. => "fence" | .jalImm .. => "jal" | .jalLabel .. => "jal"
+    | .li .. => "li" | .mv .. => "mv")
+  | _ => none
+
+def isRealMnemonic (s : String) : Bool := (Op.ofMnemonic s).isSome
+
+abbrev Labels := List (String × Int)
+def lookupLabel (ls : Labels) (n : String) : Option Int := (ls.find? (fun p => p.1 == n)).map (·.2)
+
+def addLabel (ls : Labels) (n : String) (v : Int) (k : Nat) (line : String) : Except AsmErr Labels :=
+  if (lookupLabel ls n).isSome then .error (.parser "DuplicateLabelException" k line) else .ok (ls ++ [(n, v)])
+
+/-- `_process_labels`; `pending` = `self.in_line_labels` (line number ↦ label). -/
+def processLabels : List TEntry → List (Nat × String) → Labels → Int → Except AsmErr Labels
+  | [], _, ls, _ => .ok ls
+  | (k, line, it) :: rest, pending, ls, addr =>
+    match it with
+    | .str s =>
+      if s ≠ "ecall" ∧ s ≠ "ebreak" then
+        match addLabel ls s addr k line with
+        | .error e => .error e
+        | .ok ls' => processLabels rest pending ls' addr
+      else
+        match pending.find? (fun p => p.1 == k) with
+        | some (_, l) =>
+          match addLabel ls l addr k line with
+          | .error e => .error e
+          | .ok ls' => processLabels rest (pending.filter (fun p => p.1 != k)) ls' (addr + 4)
+        | none => processLabels rest pending ls (addr + 4)
+    | _ =>
+      let counts := match itemMnemonic it with
+        | some m => isRealMnemonic m
+        | none => false
+      let next := if counts then addr + 4 else addr
+      match pending.find? (fun p => p.1 == k) with
+      | some (_, l) =>
+        match addLabel ls l addr k line with
+        | .error e => .error e
+        | .ok ls' => processLabels rest (pending.filter (fun p => p.1 != k)) ls' next
+      | none => processLabels rest pending ls next
+
+def mkInstr (op : Op) (rd rs1 rs2 : Nat) (raw : Int) (aux : Int := 0) : Instr :=
+  { op := op, rd := rd, rs1 := rs1, rs2 := rs2, imm := storedImm op raw, aux := aux }
+
+/-- `_convert_label_or_imm` for the label form -/
+def labelDisp (ls : Labels) (l : String) (off : Int) (addr : Int) (k : Nat) (line : String) : Except AsmErr Int :=
+  match lookupLabel ls l with
+  | some a => .ok (a + off - addr)
+  | none => .error (.parser "ParserLabelException" k line)
+
+/-- instruction object for one grouped entry at address `addr` -/
+def instantiate (ls : Labels) (addr : Int) (k : Nat) (line : String) (pi : PInstr) : Except AsmErr Instr :=
+  let syn : Except AsmErr Instr := .error (.parser "ParserSyntaxException" k line)
+  let opOf (mn : String) : Option Op := Op.ofMnemonic mn
+  match pi with
+  | .rtype mn rd rs1 rs2 => match opOf mn with | some op => .ok (mkInstr op rd rs1 rs2 0) | none => syn
+  | .utype mn rd imm => match opOf mn with | some op => .ok (mkInstr op rd 0 0 imm) | none => syn
+  | .rri mn a b imm | .mem mn a imm b =>
+    match opOf mn with
+    | none => syn
+    | some op =>
+      match op.ty with
+      | .i | .memI | .shiftI => .ok (mkInstr op a b 0 imm)          -- rd = reg1, rs1 = reg2
+      | .s => .ok (mkInstr op 0 b a imm)                              -- rs1 = reg2, rs2 = reg1
+      | .b =>
+        if imm % 2 ≠ 0 then .error (.parser "ParserOddImmediateException" k line)
+        else .ok (mkInstr op 0 a b imm)
+      | _ => syn
+  | .btypeLabel mn a b l off =>
+    match opOf mn with
+    | none => syn
+    | some op =>
+      match labelDisp ls l off addr k line with
+      | .error e => .error e
+      | .ok d => .ok (mkInstr op 0 a b d)
+  | .jalImm rd imm =>
+    if imm % 2 ≠ 0 then .error (.parser "ParserOddImmediateException" k line)
+    else .ok (mkInstr .jal rd 0 0 (imm - addr) imm)
+  | .jalLabel rd l off =>
+    match labelDisp ls l off addr k line with
+    | .error e => .error e
+    | .ok d => .ok (mkInstr .jal rd 0 0 d (d + addr))
+  | .csr mn rd c rs1 => match opOf mn with | some op => .ok { op := op, rd := rd, rs1 := rs1, aux := c } | none => syn
+  | .csri mn rd c u => match opOf mn with | some op => .ok { op := op, rd := rd, imm := u % 32, aux := c } | none => syn
+  | .fence _ _ => .ok { op := .fence }
+  | .memPseudo .. | .sPseudo .. | .li .. | .mv .. => syn
+
+/-- `_write_instructions` (the list of instruction objects) -/
+def buildInstrs (ls : Labels) : List TEntry → Int → Except AsmErr (List Instr)
+  | [], _ => .ok []
+  | (k, line, it) :: rest, addr =>
+    match it with
+    | .str s =>
+      if s = "ecall" then (buildInstrs ls rest (addr + 4)).map ({ op := .ecall } :: ·)
+      else if s = "ebreak" then (buildInstrs ls rest (addr + 4)).map ({ op := .ebreak, imm := 1 } :: ·)
+      else buildInstrs ls rest addr
+    | .grp pi =>
+      match instantiate ls addr k line pi with
+      | .error e => .error e
+      | .ok ins => (buildInstrs ls rest (addr + 4)).map (ins :: ·)
+    | _ => .error (.parser "ParserSyntaxException" k line)
+
+structure LoadOut where
+  st  : St
+  err : Option AsmErr
+
+/-- `RiscvSimulation.load_program(text)`: both memories are reset, then the parser passes run; on an
+    error the state keeps what the passes did so far (data already written, instruction memory empty
+    or, for a program that does not fit, filled up to the last valid address). -/
+def load (s : St) (text : String) : LoadOut :=
+  let s0 : St := { s with mem := s.mem.reset, imem := { prog := [], cache := s.imem.cache.map ICache.reset } }
+  match tokenize (sanitize text) with
+  | .error e => { st := s0, err := some e }
+  | .ok toks =>
+    match segment toks with
+    | .error e => { st := s0, err := some e }
+    | .ok (data, text') =>
+      let pending : List (Nat × String) := text'.filterMap fun (k, _, t) => t.lbl.map fun l => (k, l)
+      let tentries : List TEntry := text'.map fun (k, line, t) => (k, line, t.item)
+      let d := writeData data { mem := s0.mem, vars := [], ctr := 16384, err := none }
+      let s1 := { s0 with mem := d.mem }
+      match d.err with
+      | some e => { st := s1, err := some e }
+      | none =>
+        match expandAll d.vars tentries with
+        | .error e => { st := s1, err := some e }
+        | .ok expanded =>
+          match processLabels expanded pending [] 0 with
+          | .error e => { st := s1, err := some e }
+          | .ok ls =>
+            match buildInstrs ls expanded 0 with
+            | .error e => { st := s1, err := some e }
+            | .ok instrs =>
+              if instrs.length > 4096 then
+                { st := { s1 with imem := { s1.imem with prog := instrs.take 4096 } }, err := some (.memAddr 16384) }
+              else { st := { s1 with imem := { s1.imem with prog := instrs } }, err := none }
+
+def hexNib (n : Nat) : Char := if n < 10 then Char.ofNat (48 + n) else Char.ofNat (87 + n)
+def hexStr (s : String) : String :=
+  if s.isEmpty then "." else s.toUTF8.foldl (fun acc b => acc ++ String.ofList [hexNib (b.toNat / 16), hexNib (b.toNat % 16)]) ""
+
+def errStr : AsmErr → String
+  | .parser kind k line => s!"PE {kind} {k} {hexStr line}"
+  | .memAddr a => s!"ME addr {a}"
+
+def instrTok (i : Instr) : String := s!"{i.op.mnemonic},{i.rd},{i.rs1},{i.rs2},{i.imm},{i.aux}"
+
+def sortInts (l : List Int) : List Int := l.mergeSort (fun a b => a ≤ b)
+
+def memDump (m : Mem.Mem) : String :=
+  String.intercalate "," ((sortInts m.keys).map fun a => s!"{a}:{m.cells a}")
+
+def listing (s : St) : String :=
+  let toks := s.imem.prog.map instrTok
+  s!"ok 1 {if toks.isEmpty then "." else String.intercalate ";" toks} | {memDump s.mem.backing}"
+
+def loadProgram (s : St) (text : String) : St × String :=
+  let o := load s text
+  match o.err with
+  | none => (o.st, listing o.st)
+  | some e => (o.st, errStr e)
+
+def freshSt : St :=
+  { regs := fun _ => 0, pc := 0, mem := .flat (Mem.Mem.empty Mem.riscvCfg), imem := { prog := [], cache := none },
+    output := "", exitCode := none, cycles := 0, instrs := 0, branches := 0, procs := 0, stalls := 0, flushes := 0 }
+
+def assembleStr (text : String) : String := (loadProgram freshSt text).2
+
 end ArchSim.Asm
